@@ -389,12 +389,21 @@ def check_json(world, hist, pred, idx, text, outp, shown_order):
         by_loc = {}
         for n in scen_nodes:
             by_loc["%s:%d" % (cf["filename"], n["line"])] = n
+        bg_by_loc = {}
+        for holder in [cf] + [it for it in cf.get("items", []) if it["kind"] == "rule"]:
+            bg = holder.get("background")
+            if bg and bg.get("line"):
+                bg_by_loc["%s:%d" % (cf["filename"], bg["line"])] = bg
         last_pos = -1
         for el in jf.get("elements", []):
             if el.get("type") == "background":
                 if "status" in el and el["status"] is not None:
                     out.append(V("C15", "json-status-misplaced", "background-has-status:%s" % el["status"],
                                  feature=cf["id"], location=el.get("location")))
+                bg = bg_by_loc.get(el.get("location"))
+                if bg is not None and [s.get("name") for s in el.get("steps", [])] != bg["steps"]:
+                    out.append(V("C15", "json-structure", "background-steps", feature=cf["id"], location=el.get("location"),
+                                 json=[s.get("name") for s in el.get("steps", [])], model=bg["steps"]))
                 continue
             n = by_loc.get(el.get("location"))
             if n is None:
